@@ -181,6 +181,8 @@ def check_reports(b, hist, spec, data, fee_name):
                 if not close(run, tot, abs(tot)):
                     add("transactions_cumulate_to_positions", {"ticker": tk, "date": lab, "position": tot}, run)
                     break
+                if px is not None and lab in dlabels and abs(q) <= 1e-6 * max(1.0, abs(tot)):
+                    continue  # float-dust trade: quantity = difference of two large positions, the per-unit price is ill-conditioned
                 if px is not None and lab in dlabels:
                     mid = float(data[tk].values[dlabels.index(lab)])
                     # execution price: mid +/- half the spread (single holder: one trade direction)
